@@ -203,7 +203,8 @@ def families(tier, seed):
         fams.append(Family('circle-tilt/%s/w%d/n4' % (an, tl), fam_circle, (an, 4, tl), must_reach=('ok',), budget_s=200 if tier == 'quick' else 600))
     for which in ('Cylinder', 'Cone'):
         for an in (['+x', '-x', '+z', '-y'] if tier == 'quick' else list(AXES)):
-            for n in ((4,) if tier == 'quick' else (3, 4, 6, 8)):
+            # odd n: a base ring mirrored about an in-plane axis coincides with itself only for even n (round-4 seed)
+            for n in (((4, 3) if an == '+z' else (4, 5) if an == '-x' else (4,)) if tier == 'quick' else (3, 4, 5, 6, 8)):
                 fams.append(Family('%s/%s/n%d' % (which.lower(), an, n), fam_cyl_cone, (which, an, n, 2 if an != 'xyz' else -1), must_reach=('ok',),
                                    budget_s=150 if tier == 'quick' else 1200))
     for n1, n2 in ([(3, 2), (4, 2)] if tier == 'quick' else [(3, 2), (4, 2), (6, 2), (4, 3), (5, 3)]):
